@@ -36,7 +36,7 @@ U2 = [
 ]
 R2 = [(1, 3, 1), (1, 3, 2), (1, 3, 3), (1, 3, 8), (1, 3, 10), (1, 9)]
 
-UNIVERSES = {"U": (scopes.U, scopes.ROOTS), "U2": (U2, R2)}
+UNIVERSES = {"U": (scopes.U, scopes.ROOTS), "U2": (U2, R2), "UM": (scopes.UM, scopes.ROOTS_M)}
 
 # a stage = one exhaustively explored sub-scope
 STAGES = {
@@ -48,6 +48,8 @@ STAGES = {
         # bulk sizes at the top of the max-repetitions range (the agent answers
         # with what it has; it never sends more than 60 repetitions)
         dict(name="G", universe="U2", max_db=2, max_roots=2, triples=True, bulk=[2**31 - 1, 2**30, 65536], cut_rows=1, deviations=1),
+        # multi-octet sub-identifiers (encoded order differs from numeric order)
+        dict(name="M", universe="UM", max_db=3, max_roots=2, triples=False, bulk=[1, 2, 10], cut_rows=1, deviations=0),
     ],
     "thorough": [
         dict(name="A", universe="U", max_db=3, max_roots=2, triples=True, bulk=[1, 2, 4, 7, 25], cut_rows=3, deviations=1),
@@ -57,6 +59,7 @@ STAGES = {
         dict(name="E", universe="U2", max_db=3, max_roots=3, triples=False, bulk=[1, 2, 10], cut_rows=2, deviations=1),
         dict(name="F", universe="U2", max_db=4, max_roots=0, triples=True, bulk=[1, 2, 3], cut_rows=2, deviations=3),
         dict(name="G", universe="U2", max_db=3, max_roots=2, triples=True, bulk=[2**31 - 1, 2**30, 2**31 - 2, 65536, 255, 256], cut_rows=1, deviations=1),
+        dict(name="M", universe="UM", max_db=4, max_roots=2, triples=False, bulk=[1, 2, 3, 10], cut_rows=1, deviations=1),
     ],
 }
 
